@@ -664,8 +664,7 @@ def cases_full(ctx):
         for N in (1, 2):
             yield from enum_tables(V, sos, N, three_state_upto=N)
     for j, (V, sos) in enumerate(_configs2()):
-        full = j < 2 or not ctx.quick
-        yield from enum_tables(V, sos, 3, stride=1 if full else 4, offset=ctx.seed, inf_variants=1 if ctx.quick else 3, T=4)
+        yield from enum_tables(V, sos, 3, stride=8 if ctx.quick else 1, offset=ctx.seed + j, inf_variants=1 if ctx.quick else 3, T=4)
     # (c) three symbols in all, order 2: every subset
     for V, sos in [(3, 1), (2, 2)] + ([] if ctx.quick else [(3, 0), (3, 2), (2, -1), (2, 7)]):
         yield from enum_tables(V, sos, 2, inf_variants=1, T=3)
@@ -759,6 +758,8 @@ def _wide(V, sos, N, sizes, shape, at, seed, T=3, **kw):
 
 def cases_wide(ctx):
     seed = ctx.seed
+    for name, c in list(REGRESSIONS.items()) + ([] if ctx.quick else list(REGRESSIONS_THOROUGH.items())):
+        yield dict(c, regression=name)
     # level 1 + level 2 around 2**8: V symbols, c bigrams; every placement of the children
     for s in range(253, 260):
         for shape in ("first", "last", "spread"):
@@ -871,7 +872,7 @@ def cases_arpa_model(ctx):
 
 
 # ---------------------------------------------------------------------------------------------
-# known findings (genuine defects of the unchanged tree; see the final report)
+# known findings (none open) and regression witnesses of repaired defects
 
 
 def _wrap_class(case, msg=""):
@@ -901,20 +902,25 @@ def _wrap_class(case, msg=""):
     return False
 
 
-FINDINGS = [
-    {
-        "id": "KF-C06-1",
-        "property": "C06",
-        "clause": "C06.katz.wide_levels",
-        "what": "LookupLanguageModel._build_trie picks the offsets integer width from max_potential_offset = len(level k)+len(level k+1)-1, "
-                "but the trailing childless nodes of level k are back-filled with offsets up to len(level k)+len(level k+1): when that sum is "
-                "exactly 2**8 (2**15) and only the first k-gram has children, offsets[...] wraps to 0 in uint8 (int16) and lookups raise IndexError / return wrong values",
-        "class": "max over k of (#k-grams + #(k+1)-grams) (after suffix closure; level 1 = all tokens) is in {2**8, 2**15, 2**31}, and for a k attaining it "
-                 "every (k+1)-gram extends the first k-gram in trie order (reversed key, sos mapped to V)",
-        "witness": {"V": 128, "sos": 0, "N": 2, "T": 2, "hseed": 0, "B": 32, "gen": {"sizes": [128], "shape": "first", "at": 2, "seed": 0}},
-    }
-]
-KNOWN_MATCH = {"KF-C06-1": _wrap_class}
+# Witnesses of defects that have since been repaired in /repo; kept as named regression cases of
+# C06.katz.wide_levels (yielded first by cases_wide in both tiers).
+#   offsets_dtype_one_too_small (fixed in /repo 20fa919): _build_trie chose the offsets integer width from
+#   len(level k)+len(level k+1)-1 while trailing childless nodes are back-filled with offsets up to
+#   len(level k)+len(level k+1); a sum of exactly 2**8 / 2**15 with every (k+1)-gram under the first k-gram
+#   (the class _wrap_class decides) wrapped an offset to 0 -> IndexError or silently wrong values.
+REGRESSIONS = {
+    "offsets_dtype_one_too_small.uint8.wrong_values": {"V": 128, "sos": 0, "N": 2, "T": 2, "hseed": 0, "B": 32, "gen": {"sizes": [128], "shape": "first", "at": 2, "seed": 0}},
+    "offsets_dtype_one_too_small.uint8.index_error": {"V": 200, "sos": 0, "N": 2, "T": 2, "hseed": 256, "B": 32, "gen": {"sizes": [56], "shape": "first", "at": 2, "seed": 256}},
+    "offsets_dtype_one_too_small.uint8.sos_outside": {"V": 235, "sos": 235, "N": 2, "T": 2, "hseed": 256, "B": 32, "gen": {"sizes": [20], "shape": "first", "at": 2, "seed": 256}},
+    "offsets_dtype_one_too_small.uint8.level3": {"V": 15, "sos": -1, "N": 3, "T": 3, "hseed": 256, "B": 32, "gen": {"sizes": [240, 16], "shape": "first", "at": 3, "seed": 256}},
+    "offsets_dtype_one_too_small.uint8.level4": {"V": 16, "sos": 5, "N": 4, "T": 3, "hseed": 256, "B": 24, "gen": {"sizes": [16, 240, 16], "shape": "first", "at": 4, "seed": 256}},
+}
+REGRESSIONS_THOROUGH = {
+    "offsets_dtype_one_too_small.int16": {"V": 199, "sos": -1, "N": 3, "T": 3, "hseed": 32768, "B": 32, "all_ctx": False,
+                                          "gen": {"sizes": [32568, 200], "shape": "first", "at": 3, "seed": 32768}},
+}
+FINDINGS = []
+KNOWN_MATCH = {}
 
 CHECKERS = {
     "C06.katz.full": check_full,
@@ -953,11 +959,11 @@ def run_bounded(ctx):
           "_lm.LookupLanguageModel.calc_idx_log_probs", "_lm.SequentialLanguageModel.forward"]
     ctxb.bounded("C06.katz.full", check_full, cases_full(ctx),
                 bound="EXHAUSTIVE: 1 symbol (V=1,sos=0) orders 1..5 x {absent,finite,-inf} per gram; 2 symbols in all ((V,sos) in (2,0),(1,1),(2,1),(1,-1)) "
-                      "orders 1..2 x {absent,finite,-inf} per gram; order 3: every subset of the 14 grams for (2,0),(1,1)%s, each all-finite and with %d hashed -inf pattern(s); "
+                      "orders 1..2 x {absent,finite,-inf} per gram; order 3: %s of the 14 grams for all four (V,sos), each all-finite and with %d hashed -inf pattern(s); "
                       "3 symbols, order 2: every subset of the 12 grams for %s; every history of length 0..N+1 (order 3: 0..4) over vocabulary plus sos when outside it. "
                       "SAMPLED (seeded): %d order-4 tables on 2 symbols (histories 0..5), %d order 2..4 tables on 3..5 symbols, %d random-float tables order 1..4, V 1..4, "
                       "sos in {in-vocab, V, -1, V+3, 1000}%s" % (
-                          " (every 4th subset for (2,1),(1,-1))" if q else " and (2,1),(1,-1)", 1 if q else 3, "(3,1),(2,2)" if q else "6 (V,sos) pairs",
+                          "every 8th subset (residue chosen by VERIF_SEED; NOT exhaustive at order 3 in this tier)" if q else "every subset", 1 if q else 3, "(3,1),(2,2)" if q else "6 (V,sos) pairs",
                           3000 if q else 60000, 1500 if q else 40000, 1500 if q else 30000, "" if q else "; plus orders 1-2 three-state x every trigram subset for (2,0),(1,1)"),
                 text="lm(hist)[t, b, w] == Katz back-off recursion on the dict (present-and-finite -> listed value; else back-off of the context (0 if absent) + value for "
                      "the context minus its oldest token; left-padded with sos), for every prefix of every history",
@@ -979,7 +985,7 @@ def run_bounded(ctx):
                 text="a freshly constructed instance that loads the saved state gives the oracle's numbers (and bit-identical output, max_ngram inferred)",
                 nontrivial=_sparse, chunk=32, functions=["_lm.LookupLanguageModel.load_state_dict", "_lm.LookupLanguageModel._infer_max_direct_descendants"])
     ctxb.bounded("C06.katz.wide_levels", check_wide, cases_wide(ctx),
-                bound="generated closed tables: (#k-grams + #(k+1)-grams) in 253..259 for k=1 (order 2, V up to 239), k=2 (order 3), k=3 (order 4) with the (k+1)-grams all under the "
+                bound="named regression witnesses of the repaired offsets-width defect; generated closed tables: (#k-grams + #(k+1)-grams) in 253..259 for k=1 (order 2, V up to 239), k=2 (order 3), k=3 (order 4) with the (k+1)-grams all under the "
                       "first / last k-gram or spread; levels of 300..1600 nodes; V in {254,255,256,300} (ids wider than uint8)%s; 32 listed-context + 16 random histories of length T<=3 (+ all "
                       "contexts for order 2); full, chunked, per-element idx, reload" % (
                           "" if q else "; level sums 32765..32770 (order 3, V=200), levels of 33000-34000 nodes, 60 random shapes"),
